@@ -1,4 +1,5 @@
 """C14 — validated attributes accept exactly their documented domain, atomically."""
+import functools
 import fractions, inspect, math
 import common, lib, findings
 from comp import Comp
@@ -144,6 +145,7 @@ def values_for(L, setter, obj):
             math.nextafter(1.0, 0), 1e9, -1e9, math.inf, -math.inf, float('nan'), True, False, 'a', 'TERMINAL', 'FUNCTION', None,
             [1, 2], [], {}, {'w': 1}, (1,), np.zeros(2), np.zeros((2, 1)), np.zeros(3), np.zeros(1), np.int64(3), np.float64(0.5),
             L['Node'](name=1, type='TERMINAL', value=np.zeros((1, 1))), L['Agent'](), (lambda x: 0.0), (lambda: 0.0), (lambda x, y: 0.0),
+            (lambda x, y=2: 0.0), (lambda x, *, shift=0: 0.0), functools.partial((lambda x, y: 0.0), y=3), (lambda *a: 0.0),
             Unbuilt(), L['kinds']['PSO'](), L['Function'](pointer=lambda x: 0.0)]
     for g in setter['guards']:
         c = g['cdesc']
@@ -217,6 +219,16 @@ def check(ctx):
                         gid = next((f"{s['cls']}.{s['attr']}#{i}" for i, dm in enumerate(doms)
                                     if (not dm) == (outcome == 'accept')), f"{s['cls']}.{s['attr']}#0")
                         kn = known.get(gid)
+                        # a known finding covers exactly the values it names, not every disagreement at its guard
+                        if kn == 'K10a' and not (callable(v) and outcome == 'accept' and describe(L, v).split()[2] == '0'):
+                            kn = None
+                        if kn == 'K10b':
+                            try:
+                                falsy = not bool(v)
+                            except Exception:
+                                falsy = False
+                            if not (falsy and outcome == 'accept'):
+                                kn = None
                         if isinstance(v, float) and v != v and 'K9' in known_ids:
                             kn = 'K9'
                         if outcome == 'untyped:AttributeError' and not hasattr(v, 'built') and s['cls'] == 'Opytimizer' and 'K10c' in known_ids:
